@@ -242,7 +242,7 @@ def run(pid, args):
             log("MACHINERY: model reports %s but implementation is clean: %s" % (m, p))
             v.finish()
             return 2
-    if pid in ("C13", "C08") and not args.replay:
+    if pid in ("C13", "C08", "C02", "C15") and not args.replay:
         from checks import exprcheck
         exprcheck.fixed_scenarios_only(v, pid)
     if pid in NEST_PIDS:
